@@ -9,13 +9,16 @@ import (
 	"flag"
 	"fmt"
 	"math/rand"
+	"io"
 	"os"
 	"os/exec"
 	"path/filepath"
+	"runtime"
 	"runtime/debug"
 	"strconv"
 	"strings"
 	"sync"
+	"time"
 )
 
 func main() {
@@ -32,6 +35,8 @@ func main() {
 		replayMain(os.Args[2:])
 	case "masks":
 		masksMain(os.Args[2:])
+	case "par":
+		parMain(os.Args[2:])
 	default:
 		fmt.Fprintln(os.Stderr, "unknown mode", os.Args[1])
 		os.Exit(2)
@@ -137,8 +142,35 @@ func oneMain(args []string) {
 }
 
 // replay: execute the OP lines of a file against the implementation.
+//   replay [-raw] [-gc] [-twice] FILE
 func replayMain(args []string) {
-	f, err := os.Open(args[0])
+	twice := false
+	for len(args) > 1 {
+		switch args[0] {
+		case "-raw":
+			rawMode = true
+		case "-gc":
+			debug.SetGCPercent(1)
+			go func() {
+				for {
+					runtime.GC()
+					time.Sleep(50 * time.Microsecond)
+				}
+			}()
+		case "-twice":
+			twice = true
+		}
+		args = args[1:]
+	}
+	replayFile(args[0], os.Stdout)
+	if twice {
+		fmt.Println("=====")
+		replayFile(args[0], os.Stdout)
+	}
+}
+
+func replayFile(name string, w io.Writer) {
+	f, err := os.Open(name)
 	if err != nil {
 		panic(err)
 	}
@@ -147,7 +179,7 @@ func replayMain(args []string) {
 	h := newH()
 	sc := bufio.NewScanner(f)
 	sc.Buffer(make([]byte, 1<<20), 1<<24)
-	out := bufio.NewWriter(os.Stdout)
+	out := bufio.NewWriter(w)
 	defer out.Flush()
 	for sc.Scan() {
 		line := sc.Text()
@@ -174,4 +206,25 @@ func replayMain(args []string) {
 			}
 		}()
 	}
+}
+
+// par: replay every given trace in its own goroutine on its own worlds (the documented
+// pattern for parallel simulations), writing each output to FILE.par; the caller
+// compares it with the solo replay.  Built with -race for C19.
+func parMain(args []string) {
+	rawMode = true
+	var wg sync.WaitGroup
+	for _, name := range args {
+		wg.Add(1)
+		go func(name string) {
+			defer wg.Done()
+			f, err := os.Create(name + ".par")
+			if err != nil {
+				panic(err)
+			}
+			defer f.Close()
+			replayFile(name, f)
+		}(name)
+	}
+	wg.Wait()
 }
